@@ -80,6 +80,9 @@ type svgCase struct {
 	Unit      float64           `json:"unit"` // model units per canvas unit (default 10)
 	Tol       float64           `json:"tol"`  // absolute tolerance on numbers (default: 1e-9 relative)
 	CPUSecs   int               `json:"cpuSecs"`
+	// Out: where --svg-out points: "" or "stdout" (-), "fresh" (a path that does not exist), "longer" / "shorter"
+	// (an existing file that holds a longer / shorter document of an earlier run)
+	Out string `json:"out"`
 }
 
 type svgDiff struct {
@@ -243,7 +246,26 @@ func runEvyBinary(c *svgCase) (doc []byte, outcome, detail string, res *Result) 
 	}
 	ctx, cancel := context.WithTimeout(context.Background(), to+5*time.Second)
 	defer cancel()
+	outPath := ""
 	args := []string{"run", "--svg-out", "-"}
+	if c.Out != "" && c.Out != "stdout" {
+		if err := os.MkdirAll(c.Tmp, 0o755); err != nil {
+			return nil, "", "", &Result{OK: false, Diff: "harness: " + err.Error()}
+		}
+		outPath = filepath.Join(c.Tmp, strings.ReplaceAll(c.ID, "/", "_")+".svg")
+		os.Remove(outPath)
+		old := `<svg xmlns="http://www.w3.org/2000/svg"><rect width="1" height="1"/></svg>` + "\n"
+		if c.Out == "longer" {
+			old = `<svg xmlns="http://www.w3.org/2000/svg">` + strings.Repeat(`<circle cx="1" cy="2" r="3"/>`+"\n", 4000) + `</svg>` + "\n"
+		}
+		if c.Out != "fresh" {
+			if err := os.WriteFile(outPath, []byte(old), 0o644); err != nil {
+				return nil, "", "", &Result{OK: false, Diff: "harness: " + err.Error()}
+			}
+		}
+		defer os.Remove(outPath)
+		args[2] = outPath
+	}
 	for _, k := range []string{"style", "width", "height"} {
 		if v, ok := c.Flags[k]; ok {
 			args = append(args, "--svg-"+k, v)
@@ -300,6 +322,17 @@ func runEvyBinary(c *svgCase) (doc []byte, outcome, detail string, res *Result) 
 		outcome = "panic:other"
 	default:
 		outcome = fmt.Sprintf("exit:%d", code)
+	}
+	if outPath != "" {
+		// the document is what the file holds after the run
+		b, rerr := os.ReadFile(outPath)
+		if rerr != nil {
+			if outcome == "ok" {
+				return nil, "", "", &Result{OK: false, Obs: map[string]any{"src": c.Src}, Diff: "evy run --svg-out FILE ended normally but wrote no file: " + rerr.Error()}
+			}
+			b = nil
+		}
+		return b, outcome, detail, nil
 	}
 	return so.Bytes(), outcome, detail, nil
 }
